@@ -288,40 +288,29 @@ Proof.
   cbn [map fst In] in Hni. cbn [fst snd].
   assert (Hne : k <> k0) by (intro; subst; apply Hni; left; reflexivity).
   assert (Hnr : ~ In k (map fst r)) by (intro; apply Hni; right; assumption).
-  rewrite (IH _ k Hnr). destruct (String.eqb k0 reserved); [reflexivity | apply get_upd_other; exact Hne].
+  rewrite (IH _ k Hnr). apply get_upd_other. exact Hne.
 Qed.
 
 Lemma update_store_in (user : store) :
-  forall st k v, NoDup (keys user) -> In (k, v) user -> k <> reserved -> get k (update_store st user) = Some v.
+  forall st k v, NoDup (keys user) -> In (k, v) user -> get k (update_store st user) = Some v.
 Proof.
-  unfold update_store, keys. induction user as [|[k0 v0] r IH]; intros st k v Hnd Hin Hne; [destruct Hin|].
+  unfold update_store, keys. induction user as [|[k0 v0] r IH]; intros st k v Hnd Hin; [destruct Hin|].
   cbn [map fst] in Hnd. inversion Hnd as [|? ? Hk0 Hnd']. subst. cbn [fold_left fst snd].
   destruct Hin as [Heq|Hin].
-  - inversion Heq. subst k0 v0. apply seqb_false in Hne. rewrite Hne.
+  - inversion Heq. subst k0 v0.
     pose proof (update_store_notin r (upd k v st) k Hk0) as H. unfold update_store in H. rewrite H.
     apply get_upd_same.
-  - exact (IH _ k v Hnd' Hin Hne).
+  - exact (IH _ k v Hnd' Hin).
 Qed.
 
 Lemma update_store_keys_iff (user : store) :
-  forall st x, In x (keys (update_store st user)) <-> In x (keys st) \/ (In x (keys user) /\ x <> reserved).
+  forall st x, In x (keys (update_store st user)) <-> In x (keys st) \/ In x (keys user).
 Proof.
   unfold update_store. induction user as [|[k0 v0] r IH]; intros st x; cbn [fold_left fst snd].
-  - split; [intros H; left; exact H | intros [H|[[] _]]; exact H].
-  - rewrite IH. unfold keys at 3. cbn [map fst In]. fold (keys r).
-    destruct (String.eqb k0 reserved) eqn:E.
-    + apply seqb_true in E. subst k0. split.
-      * intros [H|[H1 H2]]; [left; exact H | right; split; [right; exact H1 | exact H2]].
-      * intros [H|[[H1|H1] H2]]; [left; exact H | subst; contradiction | right; split; assumption].
-    + apply seqb_false in E. rewrite keys_upd. split.
-      * intros [[H|H]|[H1 H2]].
-        -- subst. right. split; [left; reflexivity | exact E].
-        -- left. exact H.
-        -- right. split; [right; exact H1 | exact H2].
-      * intros [H|[[H1|H1] H2]].
-        -- left. right. exact H.
-        -- subst. left. left. reflexivity.
-        -- right. split; assumption.
+  - split; [intros H; left; exact H | intros [H|[]]; exact H].
+  - rewrite IH. unfold keys at 3. cbn [map fst In]. fold (keys r). rewrite keys_upd. split.
+    + intros [[H|H]|H]; [subst; right; left; reflexivity | left; exact H | right; right; exact H].
+    + intros [H|[H|H]]; [left; right; exact H | subst; left; left; reflexivity | right; exact H].
 Qed.
 
 (* ------------------------------------------------------------------ one construction, explicitly *)
@@ -341,11 +330,20 @@ Lemma pair_eta {A B} (p : A * B) : p = (fst p, snd p).
 Proof. destruct p; reflexivity. Qed.
 
 Lemma step_Init_ok (w : world) (i : nat) (b : file) (D : Z) (u : nat) :
-  get reserved (callers w u) = None ->
+  ~ In reserved (keys (callers w u)) ->
   step w (Init i b (Some D) (Some u)) =
   (mkWorld (Some D) (set_at (insts w) i (mkInst (update_store (store1 b D) (callers w u)) (keys (callers w u)))) (callers w), Done).
 Proof.
-  intros Hr. cbn [step bind_D]. unfold store1.
+  intros Hr. apply mem_false in Hr. cbn [step bind_D]. unfold store1.
+  rewrite (pair_eta (load_entries (Some D) [] b [])), load_no_err. rewrite Hr. reflexivity.
+Qed.
+
+(* the reserved name in the user's dict: ValueError, no object, nothing written anywhere *)
+Lemma step_Init_reserved (w : world) (i : nat) (b : file) (D : Z) (u : nat) :
+  In reserved (keys (callers w u)) ->
+  step w (Init i b (Some D) (Some u)) = (mkWorld (Some D) (insts w) (callers w), Raised "ValueError").
+Proof.
+  intros Hr. apply mem_In in Hr. cbn [step bind_D].
   rewrite (pair_eta (load_entries (Some D) [] b [])), load_no_err. rewrite Hr. reflexivity.
 Qed.
 
@@ -359,7 +357,7 @@ Proof.
 Qed.
 
 Lemma construct_explicit (w : world) (i : nat) (b a : file) (D : Z) (u : nat) :
-  get reserved (callers w u) = None ->
+  ~ In reserved (keys (callers w u)) ->
   construct w i b a D (Some u) =
   (mkWorld (Some D) (set_at (set_at (insts w) i (mkInst (update_store (store1 b D) (callers w u)) (keys (callers w u)))) i
                             (mkInst (final_store b a D (callers w u)) (keys (callers w u)))) (callers w),
@@ -370,17 +368,29 @@ Proof.
   cbn [step insts]. rewrite set_at_same. reflexivity.
 Qed.
 
+Lemma construct_reserved (w : world) (i : nat) (b a : file) (D : Z) (u : nat) :
+  In reserved (keys (callers w u)) ->
+  construct w i b a D (Some u) = (mkWorld (Some D) (insts w) (callers w), Raised "ValueError").
+Proof. intros Hr. unfold construct. rewrite (step_Init_reserved w i b D u Hr). reflexivity. Qed.
+
 Lemma construct_store (w : world) (i : nat) (b a : file) (D : Z) (u : nat) :
-  get reserved (callers w u) = None ->
+  ~ In reserved (keys (callers w u)) ->
   insts (fst (construct w i b a D (Some u))) i = mkInst (final_store b a D (callers w u)) (keys (callers w u)).
 Proof.
   intros Hr. rewrite (construct_explicit w i b a D u Hr). cbn [fst insts]. apply set_at_same.
 Qed.
 
 Lemma construct_outcome (w : world) (i : nat) (b a : file) (D : Z) (u : nat) :
-  get reserved (callers w u) = None ->
+  ~ In reserved (keys (callers w u)) ->
   snd (construct w i b a D (Some u)) = validate_outcome (final_store b a D (callers w u)) (names b ++ names a).
 Proof. intros Hr. rewrite (construct_explicit w i b a D u Hr). reflexivity. Qed.
+
+(* a construction that completes did not name the reserved key *)
+Lemma construct_done_no_reserved (w : world) (i : nat) (b a : file) (D : Z) (u : nat) :
+  snd (construct w i b a D (Some u)) = Done -> ~ In reserved (keys (callers w u)).
+Proof.
+  intros Hd Hr. rewrite (construct_reserved w i b a D u Hr) in Hd. discriminate.
+Qed.
 
 (* no user dict at all behaves like the empty dict *)
 Lemma step_Init_None_ok (w : world) (i : nat) (b : file) (D : Z) :
@@ -402,22 +412,22 @@ Qed.
 
 (* ------------------------------------------------------------------ user settings win *)
 Lemma final_store_user (b a : file) (D : Z) (user : store) (k : string) (v : value) :
-  NoDup (keys user) -> ~ In reserved (keys user) -> In (k, v) user -> get k (final_store b a D user) = Some v.
+  NoDup (keys user) -> In (k, v) user -> get k (final_store b a D user) = Some v.
 Proof.
-  intros Hnd Hres Hin. unfold final_store.
+  intros Hnd Hin. unfold final_store.
   assert (Hk : In k (keys user)) by (unfold keys; change k with (fst (k, v)); apply in_map; exact Hin).
   rewrite load_keeps_skipped by (apply skipped_true; left; exact Hk).
-  apply update_store_in; try assumption. intro; subst. exact (Hres Hk).
+  apply update_store_in; assumption.
 Qed.
 
 Theorem user_wins (w : world) (i : nat) (b a : file) (D : Z) (u : nat) :
-  NoDup (keys (callers w u)) -> ~ In reserved (keys (callers w u)) ->
+  NoDup (keys (callers w u)) -> snd (construct w i b a D (Some u)) = Done ->
   forall k v, In (k, v) (callers w u) ->
     get k (store_of (insts (fst (construct w i b a D (Some u))) i)) = Some v.
 Proof.
-  intros Hnd Hres k v Hin.
-  assert (Hr : get reserved (callers w u) = None) by (apply get_none_notin; exact Hres).
-  rewrite (construct_store w i b a D u Hr). cbn [store_of]. apply final_store_user; assumption.
+  intros Hnd Hd k v Hin.
+  rewrite (construct_store w i b a D u (construct_done_no_reserved w i b a D u Hd)). cbn [store_of].
+  apply final_store_user; assumption.
 Qed.
 
 (* ... and stay: no later load of ANY file with ANY D state on that object overwrites a user key *)
@@ -435,18 +445,17 @@ Qed.
 (* ------------------------------------------------------------------ dependent defaults see the user's value *)
 Theorem dependent_defaults_see_user_value (w : world) (i : nat) (b a : file) (D : Z) (u : nat)
         (k' : string) (deps' : list string) (k : string) (v : value) :
-  NoDup (keys (callers w u)) -> ~ In reserved (keys (callers w u)) -> NoDup (names a) ->
+  NoDup (keys (callers w u)) -> snd (construct w i b a D (Some u)) = Done -> NoDup (names a) ->
   In (k', deps') a -> ~ In k' (keys (callers w u)) -> k' <> reserved ->
   In k deps' -> k <> dname -> In (k, v) (callers w u) ->
   exists args, get k' (store_of (insts (fst (construct w i b a D (Some u))) i)) = Some (VDefault k' args) /\
                get k args = Some v.
 Proof.
-  intros Hnd Hres Hnda Hin Hnu Hnr Hdep Hne Hku.
-  assert (Hr : get reserved (callers w u) = None) by (apply get_none_notin; exact Hres).
-  rewrite (construct_store w i b a D u Hr). cbn [store_of]. unfold final_store.
+  intros Hnd Hd Hnda Hin Hnu Hnr Hdep Hne Hku.
+  rewrite (construct_store w i b a D u (construct_done_no_reserved w i b a D u Hd)). cbn [store_of]. unfold final_store.
   assert (Hk : In k (keys (callers w u))) by (unfold keys; change k with (fst (k, v)); apply in_map; exact Hku).
   refine (load_sees_protected D a (keys (callers w u)) _ k v Hk _ Hnda k' deps' Hin _ Hdep Hne).
-  - apply update_store_in; try assumption. intro; subst. exact (Hres Hk).
+  - apply update_store_in; assumption.
   - apply skipped_false. split; assumption.
 Qed.
 
@@ -501,12 +510,12 @@ Proof.
 Qed.
 
 Theorem final_store_spec (b a : file) (D : Z) (user : store) :
-  files_ok b a -> NoDup (keys user) -> ~ In reserved (keys user) ->
+  files_ok b a -> NoDup (keys user) ->
   let st := final_store b a D user in
   (forall k v, In (k, v) user -> get k st = Some v) /\
   (forall e, In e (b ++ a) -> ~ In (fst e) (keys user) -> get (fst e) st = Some (spec_value D st e)).
 Proof.
-  intros [Hnd Hres Hbasic Hord] Hndu Hresu st. split.
+  intros [Hnd Hres Hbasic Hord] Hndu st. split.
   - intros k v Hin. apply final_store_user; assumption.
   - intros [k deps] Hin Hnu. cbn [fst] in *. unfold spec_value. cbn [fst snd].
     apply in_app_or in Hin. destruct Hin as [Hb|Ha].
@@ -531,10 +540,10 @@ Qed.
 
 (* every key of the files is present after a construction *)
 Corollary final_store_total (b a : file) (D : Z) (user : store) (e : entry) :
-  files_ok b a -> NoDup (keys user) -> ~ In reserved (keys user) ->
+  files_ok b a -> NoDup (keys user) ->
   In e (b ++ a) -> get (fst e) (final_store b a D user) <> None.
 Proof.
-  intros Hf Hnd Hres Hin. destruct (final_store_spec b a D user Hf Hnd Hres) as [H1 H2].
+  intros Hf Hnd Hin. destruct (final_store_spec b a D user Hf Hnd) as [H1 H2].
   destruct (in_dec string_dec (fst e) (keys user)) as [Hu|Hu].
   - unfold keys in Hu. apply in_map_iff in Hu. destruct Hu as [[k v] [Hk Hkv]]. cbn [fst] in Hk. subst k.
     rewrite (H1 _ _ Hkv). discriminate.
@@ -543,23 +552,22 @@ Qed.
 
 (* ------------------------------------------------------------------ unknown names are rejected *)
 Lemma final_store_keys (b a : file) (D : Z) (user : store) (x : string) :
-  ~ In reserved (keys user) ->
-  (In x (keys (final_store b a D user)) <->
-   (In x (names b ++ names a) /\ x <> reserved) \/ In x (keys user)).
+  In x (keys (final_store b a D user)) <->
+  (In x (names b ++ names a) /\ x <> reserved) \/ In x (keys user).
 Proof.
-  intros Hres. unfold final_store, store1.
+  unfold final_store, store1.
   rewrite load_keys_iff, update_store_keys_iff, load_keys_iff. cbn [keys map In].
   rewrite !skipped_false, in_app_iff. split.
-  - intros [[[[]|[H1 [_ H2]]]|[H1 H2]]|[H1 [H2 H3]]].
+  - intros [[[[]|[H1 [_ H2]]]|H1]|[H1 [H2 H3]]].
     + left. split; [left; exact H1 | exact H2].
     + right. exact H1.
     + left. split; [right; exact H1 | exact H3].
   - intros [[[H1|H1] H2]|H1].
     + left. left. right. split; [exact H1|]. split; [intros [] | exact H2].
     + destruct (in_dec string_dec x (keys user)) as [Hu|Hu].
-      * left. right. split; [exact Hu | intro; subst; exact (Hres Hu)].
+      * left. right. exact Hu.
       * right. split; [exact H1|]. split; assumption.
-    + left. right. split; [exact H1 | intro; subst; exact (Hres H1)].
+    + left. right. exact H1.
 Qed.
 
 Lemma validate_raises_iff (st : store) (nms : list string) :
@@ -577,32 +585,64 @@ Lemma validate_outcome_cases (st : store) (nms : list string) :
   validate_outcome st nms = Done \/ validate_outcome st nms = Raised "ValueError".
 Proof. unfold validate_outcome. destruct (forallb _ st); [left|right]; reflexivity. Qed.
 
+(* for ANY user dict: construction raises ValueError exactly when some user key is not defined by the
+   files or is the reserved name, and otherwise completes *)
 Theorem unknown_rejected (w : world) (i : nat) (b a : file) (D : Z) (u : nat) :
-  ~ In reserved (keys (callers w u)) ->
+  (snd (construct w i b a D (Some u)) = Raised "ValueError" <->
+   exists k, In k (keys (callers w u)) /\ (~ In k (names b ++ names a) \/ k = reserved)) /\
+  (snd (construct w i b a D (Some u)) = Done <->
+   forall k, In k (keys (callers w u)) -> In k (names b ++ names a) /\ k <> reserved).
+Proof.
+  destruct (in_dec string_dec reserved (keys (callers w u))) as [Hr|Hr].
+  - rewrite (construct_reserved w i b a D u Hr). cbn [snd]. split.
+    + split; [|reflexivity]. intros _. exists reserved. split; [exact Hr | right; reflexivity].
+    + split; [discriminate|]. intros Hall. exfalso. destruct (Hall reserved Hr) as [_ Hne]. apply Hne. reflexivity.
+  - rewrite (construct_outcome w i b a D u Hr).
+    assert (Hiff : validate_outcome (final_store b a D (callers w u)) (names b ++ names a) = Raised "ValueError" <->
+                   exists k, In k (keys (callers w u)) /\ (~ In k (names b ++ names a) \/ k = reserved)).
+    { rewrite validate_raises_iff. split.
+      - intros [k [Hk Hn]]. apply (final_store_keys b a D _ k) in Hk.
+        destruct Hk as [[Hk _]|Hk]; [contradiction|]. exists k. split; [exact Hk | left; exact Hn].
+      - intros [k [Hk [Hn|Hn]]]; [|subst; contradiction]. exists k. split; [|exact Hn].
+        apply (final_store_keys b a D _ k). right. exact Hk. }
+    split; [exact Hiff|].
+    destruct (validate_outcome_cases (final_store b a D (callers w u)) (names b ++ names a)) as [Hd|Hv].
+    + split; [|intros _; exact Hd]. intros _ k Hk. split; [|intro; subst; contradiction].
+      destruct (in_dec string_dec k (names b ++ names a)) as [Hi|Hi]; [exact Hi|].
+      exfalso. assert (Hx : validate_outcome (final_store b a D (callers w u)) (names b ++ names a) = Raised "ValueError").
+      { apply Hiff. exists k. split; [exact Hk | left; exact Hi]. }
+      rewrite Hd in Hx. discriminate.
+    + split; [rewrite Hv; discriminate|]. intros Hall. exfalso.
+      apply Hiff in Hv. destruct Hv as [k [Hk [Hn|Hn]]].
+      * destruct (Hall k Hk) as [Hi _]. exact (Hn Hi).
+      * destruct (Hall k Hk) as [_ Hne]. exact (Hne Hn).
+Qed.
+
+(* for files that do not define the reserved name (the real ones): exactly the unknown names *)
+Corollary unknown_rejected_files (w : world) (i : nat) (b a : file) (D : Z) (u : nat) :
+  ~ In reserved (names b ++ names a) ->
   (snd (construct w i b a D (Some u)) = Raised "ValueError" <->
    exists k, In k (keys (callers w u)) /\ ~ In k (names b ++ names a)) /\
   (snd (construct w i b a D (Some u)) = Done <->
    forall k, In k (keys (callers w u)) -> In k (names b ++ names a)).
 Proof.
-  intros Hres.
-  assert (Hr : get reserved (callers w u) = None) by (apply get_none_notin; exact Hres).
-  rewrite (construct_outcome w i b a D u Hr).
-  assert (Hiff : validate_outcome (final_store b a D (callers w u)) (names b ++ names a) = Raised "ValueError" <->
-                 exists k, In k (keys (callers w u)) /\ ~ In k (names b ++ names a)).
-  { rewrite validate_raises_iff. split.
-    - intros [k [Hk Hn]]. apply (final_store_keys b a D _ k Hres) in Hk.
-      destruct Hk as [[Hk _]|Hk]; [contradiction|]. exists k. split; assumption.
-    - intros [k [Hk Hn]]. exists k. split; [|exact Hn].
-      apply (final_store_keys b a D _ k Hres). right. exact Hk. }
-  split; [exact Hiff|].
-  destruct (validate_outcome_cases (final_store b a D (callers w u)) (names b ++ names a)) as [Hd|Hv].
-  - split; [|intros _; exact Hd]. intros _ k Hk.
-    destruct (in_dec string_dec k (names b ++ names a)) as [Hi|Hi]; [exact Hi|].
-    exfalso. assert (Hx : validate_outcome (final_store b a D (callers w u)) (names b ++ names a) = Raised "ValueError").
-    { apply Hiff. exists k. split; assumption. }
-    rewrite Hd in Hx. discriminate.
-  - split; [rewrite Hv; discriminate|]. intros Hall. exfalso.
-    apply Hiff in Hv. destruct Hv as [k [Hk Hn]]. exact (Hn (Hall k Hk)).
+  intros Hres. destruct (unknown_rejected w i b a D u) as [H1 H2]. split.
+  - rewrite H1. split.
+    + intros [k [Hk [Hn|Hn]]]; exists k; split; try assumption. subst. exact Hres.
+    + intros [k [Hk Hn]]. exists k. split; [exact Hk | left; exact Hn].
+  - rewrite H2. split.
+    + intros Hall k Hk. exact (proj1 (Hall k Hk)).
+    + intros Hall k Hk. split; [exact (Hall k Hk)|]. intro; subst. exact (Hres (Hall reserved Hk)).
+Qed.
+
+(* the reserved name: rejected with ValueError, no object is bound, nothing is written *)
+Theorem reserved_name_rejected (w : world) (i : nat) (b a : file) (D : Z) (u : nat) :
+  In reserved (keys (callers w u)) ->
+  snd (construct w i b a D (Some u)) = Raised "ValueError" /\
+  (forall j, insts (fst (construct w i b a D (Some u))) j = insts w j) /\
+  (forall v, callers (fst (construct w i b a D (Some u))) v = callers w v).
+Proof.
+  intros Hr. rewrite (construct_reserved w i b a D u Hr). cbn [fst snd insts callers]. repeat split.
 Qed.
 
 (* Validate alone, on any object: raises iff some stored key is not a file name *)
@@ -615,22 +655,16 @@ Proof.
 Qed.
 
 (* ------------------------------------------------------------------ caller-owned dicts *)
-Definition callers_clean (w : world) : Prop := forall u, get reserved (callers w u) = None.
-
-Lemma step_callers (w : world) (o : op) :
-  callers_clean w -> forall u, callers (fst (step w o)) u = callers w u.
+Lemma step_callers (w : world) (o : op) : forall u, callers (fst (step w o)) u = callers w u.
 Proof.
-  intros Hc u. destruct o as [i f oD ou|i f oD|i nms|i ks]; cbn [step].
+  intros u. destruct o as [i f oD ou|i f oD|i nms|i ks]; cbn [step].
   - rewrite (pair_eta (load_entries (bind_D oD (gD w)) [] f [])).
     destruct (snd (load_entries (bind_D oD (gD w)) [] f [])); [reflexivity|].
-    destruct ou as [u0|]; [|reflexivity]. rewrite (Hc u0). reflexivity.
+    destruct ou as [u0|]; [|reflexivity]. destruct (mem reserved (keys (callers w u0))); reflexivity.
   - rewrite (pair_eta (load_entries (bind_D oD (gD w)) (useropts (insts w i)) f (store_of (insts w i)))). reflexivity.
   - reflexivity.
   - reflexivity.
 Qed.
-
-Lemma step_callers_clean (w : world) (o : op) : callers_clean w -> callers_clean (fst (step w o)).
-Proof. intros Hc u. rewrite (step_callers w o Hc u). apply Hc. Qed.
 
 Lemma run_cons (w : world) (o : op) (r : list op) :
   run w (o :: r) = (fst (run (fst (step w o)) r), snd (step w o) :: snd (run (fst (step w o)) r)).
@@ -639,14 +673,11 @@ Proof.
 Qed.
 
 Theorem caller_dict_untouched (ops : list op) :
-  forall w, callers_clean w -> forall u, callers (fst (run w ops)) u = callers w u.
+  forall w u, callers (fst (run w ops)) u = callers w u.
 Proof.
-  induction ops as [|o r IH]; intros w Hc u; [reflexivity|].
-  rewrite run_cons. cbn [fst]. rewrite (IH _ (step_callers_clean w o Hc) u). apply step_callers. exact Hc.
+  induction ops as [|o r IH]; intros w u; [reflexivity|].
+  rewrite run_cons. cbn [fst]. rewrite (IH _ u). apply step_callers.
 Qed.
-
-Lemma run_callers_clean (ops : list op) (w : world) : callers_clean w -> callers_clean (fst (run w ops)).
-Proof. intros Hc u. rewrite (caller_dict_untouched ops w Hc u). apply Hc. Qed.
 
 (* ------------------------------------------------------------------ noninterference between instances *)
 Definition binds_D (o : op) : Prop :=
@@ -672,7 +703,7 @@ Proof.
   - rewrite (pair_eta (load_entries (bind_D oD (gD w)) [] f [])).
     destruct (snd (load_entries (bind_D oD (gD w)) [] f [])); [reflexivity|].
     destruct ou as [u0|]; [|cbn [fst insts]; apply set_at_other; auto].
-    destruct (get reserved (callers w u0)) as [[]|]; cbn [fst insts]; try reflexivity; apply set_at_other; auto.
+    destruct (mem reserved (keys (callers w u0))); cbn [fst insts]; [reflexivity | apply set_at_other; auto].
   - rewrite (pair_eta (load_entries (bind_D oD (gD w)) (useropts (insts w j)) f (store_of (insts w j)))).
     cbn [fst insts]. apply set_at_other. auto.
   - reflexivity.
@@ -688,7 +719,7 @@ Proof.
   - destruct oD as [d|]; [|contradiction]. cbn [step bind_D].
     rewrite (pair_eta (load_entries (Some d) [] f [])), load_no_err.
     destruct ou as [u0|]; [|cbn [fst snd insts]; rewrite !set_at_same; split; reflexivity].
-    rewrite <- (Hc u0). destruct (get reserved (callers w u0)) as [[]|]; cbn [fst snd insts];
+    rewrite <- (Hc u0). destruct (mem reserved (keys (callers w u0))); cbn [fst snd insts];
       rewrite ?set_at_same; split; try reflexivity; exact Hs.
   - destruct oD as [d|]; [|contradiction]. rewrite !step_Load_ok. cbn [fst snd insts].
     rewrite !set_at_same, Hs. split; reflexivity.
@@ -698,31 +729,30 @@ Qed.
 
 Theorem no_leak (ops : list op) :
   forall (w w' : world) (i : nat),
-    Forall binds_D ops -> callers_clean w ->
+    Forall binds_D ops ->
     (forall u, callers w' u = callers w u) -> insts w' i = insts w i ->
     insts (fst (run w ops)) i = insts (fst (run w' (proj i ops))) i /\
     outs_of i ops (snd (run w ops)) = snd (run w' (proj i ops)).
 Proof.
-  induction ops as [|o r IH]; intros w w' i Hb Hc Hcal Hs.
+  induction ops as [|o r IH]; intros w w' i Hb Hcal Hs.
   - cbn [proj filter run fst snd outs_of]. split; [symmetry; exact Hs | reflexivity].
   - inversion Hb as [|? ? Hbo Hbr]. subst. rewrite run_cons. cbn [fst snd outs_of proj filter].
     destruct (Nat.eqb (op_inst o) i) eqn:E.
     + apply Nat.eqb_eq in E. fold (proj i r). rewrite run_cons. cbn [fst snd].
-      assert (Hc' : callers_clean w') by (intros u; rewrite Hcal; apply Hc).
       destruct (step_own w w' o i E Hbo (eq_sym Hs) (fun u => eq_sym (Hcal u))) as [H1 H2].
-      destruct (IH (fst (step w o)) (fst (step w' o)) i Hbr (step_callers_clean w o Hc)) as [H3 H4].
-      * intros u. rewrite (step_callers w' o Hc' u), (step_callers w o Hc u). apply Hcal.
+      destruct (IH (fst (step w o)) (fst (step w' o)) i Hbr) as [H3 H4].
+      * intros u. rewrite (step_callers w' o u), (step_callers w o u). apply Hcal.
       * symmetry. exact H1.
       * split; [exact H3 | rewrite H2, H4; reflexivity].
     + apply Nat.eqb_neq in E. fold (proj i r).
-      apply (IH (fst (step w o)) w' i Hbr (step_callers_clean w o Hc)).
-      * intros u. rewrite (step_callers w o Hc u). apply Hcal.
+      apply (IH (fst (step w o)) w' i Hbr).
+      * intros u. rewrite (step_callers w o u). apply Hcal.
       * rewrite (step_other w o i E). exact Hs.
 Qed.
 
 (* the op sequence of a construction, run alone from any process state *)
 Lemma run_construct_ops (w : world) (i : nat) (b a : file) (D : Z) (u : nat) :
-  get reserved (callers w u) = None ->
+  ~ In reserved (keys (callers w u)) ->
   insts (fst (run w (construct_ops i b a D (Some u)))) i = mkInst (final_store b a D (callers w u)) (keys (callers w u)) /\
   snd (run w (construct_ops i b a D (Some u))) =
     [Done; Done; validate_outcome (final_store b a D (callers w u)) (names b ++ names a)].
@@ -732,21 +762,31 @@ Proof.
   rewrite !set_at_same. cbn [store_of useropts]. split; reflexivity.
 Qed.
 
-(* headline: in ANY interleaving with other instances' ops, an instance constructed with (D, user)
-   holds exactly the user's values and, for every other key of the files, its default for its OWN D *)
-Theorem defaults_for_own_D (ops : list op) (w : world) (i : nat) (b a : file) (D : Z) (u : nat) :
-  Forall binds_D ops -> callers_clean w -> files_ok b a -> NoDup (keys (callers w u)) ->
+Lemma run_construct_ops_first_done (w : world) (i : nat) (b a : file) (D : Z) (u : nat) (o2 o3 : outcome) :
+  snd (run w (construct_ops i b a D (Some u))) = [Done; o2; o3] -> ~ In reserved (keys (callers w u)).
+Proof.
+  intros H Hr. unfold construct_ops in H. rewrite run_cons in H. cbn [snd] in H.
+  rewrite (step_Init_reserved w i b D u Hr) in H. cbn [snd] in H. discriminate.
+Qed.
+
+(* headline: in ANY interleaving with other instances' ops, an instance whose construction with (D, user)
+   went through its Init holds exactly the user's values and, for every other key of the files, its
+   default for its OWN D *)
+Theorem defaults_for_own_D (ops : list op) (w : world) (i : nat) (b a : file) (D : Z) (u : nat) (o2 o3 : outcome) :
+  Forall binds_D ops -> files_ok b a -> NoDup (keys (callers w u)) ->
   proj i ops = construct_ops i b a D (Some u) ->
+  outs_of i ops (snd (run w ops)) = [Done; o2; o3] ->
   let st := store_of (insts (fst (run w ops)) i) in
   (forall k v, In (k, v) (callers w u) -> get k st = Some v) /\
   (forall e, In e (b ++ a) -> ~ In (fst e) (keys (callers w u)) -> get (fst e) st = Some (spec_value D st e)).
 Proof.
-  intros Hb Hc Hf Hnd Hp st.
-  destruct (no_leak ops w w i Hb Hc (fun _ => eq_refl) eq_refl) as [H1 _].
-  unfold st. rewrite H1, Hp.
-  destruct (run_construct_ops w i b a D u (Hc u)) as [H2 _]. rewrite H2. cbn [store_of].
-  apply final_store_spec; try assumption.
-  apply get_none_notin. apply Hc.
+  intros Hb Hf Hnd Hp Ho st.
+  destruct (no_leak ops w w i Hb (fun _ => eq_refl) eq_refl) as [H1 H1o].
+  rewrite Hp in H1, H1o. rewrite H1o in Ho.
+  pose proof (run_construct_ops_first_done w i b a D u o2 o3 Ho) as Hr.
+  unfold st. rewrite H1.
+  destruct (run_construct_ops w i b a D u Hr) as [H2 _]. rewrite H2. cbn [store_of].
+  apply final_store_spec; assumption.
 Qed.
 
 (* ------------------------------------------------------------------ concrete witnesses *)
@@ -771,13 +811,12 @@ Example interleaved_stores :
     [("n"%string, VUser 9); ("disp"%string, VDefault "disp" []); ("tol"%string, VDefault "tol" []);
      ("noise"%string, VDefault "noise" [("tol"%string, VDefault "tol" [])]);
      ("m"%string, VDefault "m" [(dname, VInt 5); ("n"%string, VUser 9)])] /\
-  Forall binds_D interleaved /\ callers_clean wAB /\
-  proj 0 interleaved = construct_ops 0 fA fB 2 (Some 0%nat).
+  Forall binds_D interleaved /\
+  proj 0 interleaved = construct_ops 0 fA fB 2 (Some 0%nat) /\
+  outs_of 0 interleaved (snd (run wAB interleaved)) = [Done; Done; Done].
 Proof.
   split; [vm_compute; reflexivity|]. split; [vm_compute; reflexivity|].
-  split; [repeat constructor; discriminate|]. split; [|reflexivity].
-  intros u. unfold wAB, with_callers, world0. cbn [callers fold_left fst snd]. unfold set_at.
-  destruct (Nat.eqb u 1); [reflexivity|]. destruct (Nat.eqb u 0); reflexivity.
+  split; [repeat constructor; discriminate|]. split; [reflexivity | vm_compute; reflexivity].
 Qed.
 
 (* why the premise "every load binds D" matters: a load with empty evaluation_parameters reads the D
@@ -797,14 +836,13 @@ Example basic_dependency_misses_user_value :
   deps_ok fBad [] = false.
 Proof. vm_compute. repeat split; reflexivity. Qed.
 
-(* the reserved name in the caller's dict: accepted although no file defines it, the caller's set
-   object is extended in place, and the named default is silently missing *)
+(* the reserved name in the caller's dict: rejected, the caller's set object is left alone, no object *)
 Example reserved_name_corner :
   let w := with_callers world0 [(0%nat, [(reserved, VSet ["m"%string])])] in
   let r := construct w 0 fA fB 2 (Some 0%nat) in
-  snd r = Done /\ mem reserved (names fA ++ names fB) = false /\
-  callers (fst r) 0 = [(reserved, VSet ["m"%string; reserved])] /\
-  get "m"%string (store_of (insts (fst r) 0)) = None.
+  snd r = Raised "ValueError" /\
+  callers (fst r) 0 = [(reserved, VSet ["m"%string])] /\
+  store_of (insts (fst r) 0) = [].
 Proof. vm_compute. repeat split; reflexivity. Qed.
 
 (* optimize()'s adjustments: the user's value is replaced by a function of it, and a second run compounds *)
